@@ -194,6 +194,12 @@ def check_site(fn, call, summ, dest_idx, capacity_of=None):
         lo, hi = q.interval_from_guards(fn, call, n)
         if hi == q.INF:
             return False, None, cap, 'length argument `%s` has no dominating upper bound' % n.text()
+        st = n.strip(casts=True)
+        pt = call.callee['pt'][summ.cap_param] if call.callee and 'pt' in call.callee and summ.cap_param < len(call.callee['pt']) else None
+        ptype = fn.tu.types[pt] if pt is not None else {}
+        if st.type and st.type.get('signed') and ptype.get('signed') is False and lo < 0:
+            return False, None, cap, ('length argument `%s` is signed (%s) and only bounded above (<= %d): a negative value passes the guard and converts to a '
+                                      'huge unsigned length' % (n.text(), st.type.get('c', 'int'), hi))
         need = hi + summ.slack
         return need <= cap, need, cap, 'length `%s` <= %d by a dominating guard, + %d' % (n.text(), hi, summ.slack)
     return False, None, cap, 'unknown summary kind'
